@@ -9,7 +9,6 @@ import (
 	"os"
 	"os/exec"
 	"os/signal"
-	"syscall"
 	"path/filepath"
 	"regexp"
 	"runtime/debug"
@@ -18,6 +17,7 @@ import (
 	"strconv"
 	"strings"
 	"sync"
+	"syscall"
 	"time"
 
 	"golang.org/x/tools/go/packages"
@@ -737,6 +737,9 @@ func main() {
 		if h.Unwind == 0 {
 			h.Unwind = 64
 		}
+		if h.UnwindConcrete == 0 {
+			h.UnwindConcrete = 100000
+		}
 		if h.MaxSteps == 0 {
 			h.MaxSteps = 50_000_000
 		}
@@ -751,6 +754,9 @@ func main() {
 		}
 		if h.NearEps == 0 {
 			h.NearEps = 1e-6
+		}
+		if h.Preemptions == 0 {
+			h.Preemptions = 2
 		}
 		if h.MaxPaths == 0 {
 			h.MaxPaths = 200000
